@@ -420,11 +420,16 @@ func metricsClearRule(c *Ctx, ruleID string) {
 			}
 			envO := Env{}
 			if condPolarity(tb.T(iff.Cond), "lt(?i,c["+doNotUse+"])", envO) != 0 {
-				// the counter runs from 0 in steps of 1
-				if ph, isPhi := envO["i"].V.(*ssa.Phi); isPhi {
+				// the counter runs from 0 in steps of 1 (`for i := 0; i < doNotUse; i++`, or a range over the
+				// doNotUse-element array p.all, which go/ssa lowers to φ(-1, i+1) compared as i+1 < len)
+				iv, first := envO["i"].V, "0"
+				if inc, isInc := iv.(*ssa.BinOp); isInc && inc.Op == token.ADD && isConst(inc.Y, "1") {
+					iv, first = inc.X, "-1"
+				}
+				if ph, isPhi := iv.(*ssa.Phi); isPhi {
 					from0, step1 := false, true
 					for _, e := range ph.Edges {
-						if isConst(e, "0") {
+						if isConst(e, first) {
 							from0 = true
 							continue
 						}
